@@ -120,7 +120,7 @@ pub fn run(rep: &mut Rep) {
     let mut case = 0u64;
     // (a) every response kind, subsets from empty to full, capacities around the exact size
     for (kind, k) in KINDS {
-        let n = rep.n(400, 40_000);
+        let n = rep.n(400, 400_000);
         for i in 0..n * rep.nshards {
             case += 1;
             if !rep.mine(case) {
@@ -160,7 +160,7 @@ pub fn run(rep: &mut Rep) {
     for kind in big_kinds {
         for &a in anchors {
             for off in -2i64..=2 {
-                for rpt in 0..rep.n(16, 400) {
+                for rpt in 0..rep.n(16, 2000) {
                     case += 1;
                     if !rep.mine(case) {
                         continue;
@@ -185,7 +185,7 @@ pub fn run(rep: &mut Rep) {
         }
     }
     // (c) histories: one re-used buffer, 50 different responses in a row
-    let n = rep.n(64, 3000);
+    let n = rep.n(64, 30_000);
     for _ in 0..n * rep.nshards {
         case += 1;
         if !rep.mine(case) {
